@@ -1,7 +1,7 @@
 """C01 - Interpolants reproduce the data and never overshoot it (structural clauses, over the reals)."""
 import sympy as sp
 from sympy import Symbol, Function, S
-from ..ir import AnalysisBroken, Undecided, show, strip, strip_casts, walk_stmts, stmt_exprs, walk_expr, calls
+from ..ir import AnalysisBroken, Undecided, show, strip, strip_casts, walk_stmts, stmt_exprs, walk_expr, calls, all_exprs
 from ..symx import Symx, Arr, is_zero, equal
 from .. import symx as SX
 
@@ -565,6 +565,8 @@ def check_bilinear(prog, ctx):
     Xf, Yf = Function(built[hx], real=True), Function(built[hy], real=True)
     G = [a for a in applied(Tij) if len(a.args) == 2]
     if not G or len(set(a.func for a in G)) != 1:
+        if flat_grid(prog, ctx, f, ctor, Tij, i, j, Xf, Yf):
+            return
         ctx.undecided('C01.f', 'Interpolate2D:form', f, 'cannot identify the grid array in %s' % str(Tij)[:300])
         return
     Gf = G[0].func
@@ -594,6 +596,66 @@ def check_bilinear(prog, ctx):
                'not the bilinear interpolant of the cell: ' + '; '.join(problems), witness={'problems': problems}, form=str(Tij))
     ctx.decide('C01.g', 'Interpolation_2D:helpers', ctor, True,
                'index helpers are built from the abscissa arrays they index: %s' % built)
+
+
+def flat_grid(prog, ctx, f, ctor, Tij, i, j, Xf, Yf):
+    """The cell corners are read from a one-dimensional member at i*S + j (+S, +1): a flat copy of the grid.  The constructor appends the
+    rows of the table, each as long as the second abscissa list, so the stride S must be the member initialised with the size of the list
+    that also initialises the array indexed by j.  A stride taken from the other list is decided (violated: the layouts agree only on
+    square grids); anything else about a second storage is left undecided.  Returns True when it reported."""
+    F1 = [a for a in applied(Tij) if len(a.args) == 1 and a.func not in (Xf, Yf) and a.args[0].has(i) and a.args[0].has(j)]
+    if not F1 or len(set(a.func for a in F1)) != 1:
+        return False
+    fld = F1[0].func.__name__.replace('this.', '')
+    strides = set()
+    for a in F1:
+        try:
+            pl = sp.Poly(sp.expand(a.args[0]), i, j)
+        except sp.PolynomialError:
+            return False
+        if pl.total_degree() != 1 or pl.coeff_monomial(j) != 1:
+            return False
+        strides.add(pl.coeff_monomial(i))
+    if len(strides) != 1:
+        return False
+    S = strides.pop()
+    if not isinstance(S, sp.Symbol) or not str(S).startswith('this.'):
+        return False
+    init = {m['field']: strip_casts(m['init']) for m in ctor.inits if m.get('field') and m.get('init') is not None}
+
+    def size_param(e):
+        e = strip_casts(e or {})
+        while e.get('k') in ('Cast', 'Construct') and (e.get('e') or e.get('args')):
+            e = strip_casts(e['e']) if e.get('k') == 'Cast' else strip_casts(e['args'][0])
+        if e.get('k') == 'Call' and e.get('kind') == 'method' and (e.get('callee') or {}).get('name') == 'size':
+            o = strip_casts(e['obj'])
+            if o.get('k') == 'Ref' and o.get('rk') == 'param':
+                return o['name']
+        return None
+
+    def ref_param(e):
+        e = strip_casts(e or {})
+        while e.get('k') in ('Construct', 'Copy') and (e.get('args') or e.get('e')):
+            e = strip_casts(e['args'][0]) if e.get('k') == 'Construct' else strip_casts(e['e'])
+        return e['name'] if e.get('k') == 'Ref' and e.get('rk') == 'param' else None
+    sp_ = size_param(init.get(str(S).replace('this.', '')))
+    yp = ref_param(init.get(Yf.__name__.replace('this.', '')))
+    xp = ref_param(init.get(Xf.__name__.replace('this.', '')))
+    # the writer: rows appended one after the other inside a loop of the constructor
+    appended = False
+    for e_ in all_exprs(ctor):
+        if e_.get('k') == 'Call' and e_.get('kind') == 'method' and (e_.get('callee') or {}).get('name') in ('insert', 'push_back') \
+                and strip_casts(e_.get('obj') or {}).get('k') == 'Member' and strip_casts(e_['obj']).get('name') == fld:
+            appended = True
+    if sp_ is None or yp is None or xp is None or not appended:
+        return False
+    if sp_ == xp and sp_ != yp:
+        ctx.violated('C01.f', 'Interpolate2D:form', f, 'the cell corners are read from the flat copy `%s` at i*%s + j, but the constructor appends the rows of the table one after the other and a row '
+                     'has as many entries as `%s` (the list behind %s, indexed by j), while %s is the size of `%s`: reader and writer agree only on square grids - on any other grid '
+                     'the four values are not the corners of cell (i,j)' % (fld, S, yp, Yf.__name__, S, xp),
+                     witness={'grid': '3 x 7: node (1,0) is read at offset 3 but stored at offset 7', 'stride': str(S), 'row_length': 'size of ' + yp}, form=str(Tij)[:300])
+        return True
+    return False
 
 
 def check_ctor(prog, ctx, roles, Yf, writer):
